@@ -85,6 +85,13 @@ def parse_overlay(paths):
                 cur_sec = None
                 modname = None
                 continue
+            if line.startswith("typeinv "):
+                mm = re.match(r"typeinv\s+(\S+)\s*(?:\[([^\]]*)\])?\s*$", line)
+                cur = None
+                cur_sec = None
+                modname = "__typeinv__" + mm.group(1) + "|" + (mm.group(2) or "")
+                mods.setdefault(modname, [])
+                continue
             if line.startswith("module "):
                 modname = line[7:].strip()
                 mods.setdefault(modname, [])
@@ -681,6 +688,46 @@ class Renderer:
         if m == "size_hint" and not args and self.rw.get("size_hint_stub"):
             self.log.append("R12 .size_hint() -> __size_hint(&..)")
             return "crate::__size_hint(&%s)" % self.render(recv)
+        # R18: RANGE[.map(Ctor)].all(|pat| body) / .any(..)  ->  loop with early exit (definition of Iterator::all / any)
+        if m in ("all", "any") and len(args) == 1 and args[0]["k"] == "Closure":
+            base, ctor = recv, None
+            if base["k"] == "MethodCall" and base["method"] == "map":
+                margs = [self.find(base, a) for a in base["args"]]
+                if len(margs) == 1 and margs[0]["k"] == "Path":
+                    ctor = self.render(margs[0])
+                    base = self.find(base, base["receiver"])
+            if RANGE_FOR.match(self.t(base["s"], base["e"]).strip()) and (ctor is not None or base is recv):
+                c = args[0]
+                self.closure_ok_to_inline(c)
+                pat = c["inputs"][0]["text"]
+                body = self.render(self.find(c, c["body"]))
+                k = self.nloops + self.synth_loops
+                self.synth_loops += 1
+                self.log.append("R18 range.%s(closure) -> loop with early exit (synthesized loop #%d)" % (m, k))
+                init, hit = ("true", "!") if m == "all" else ("false", "")
+                head = ("for __x in %s" % self.render(base)) if self.plain else ("for __x in __r%d: %s" % (k, self.render(base)))
+                bind = "let %s = %s;" % (pat, ("%s(__x)" % ctor) if ctor else "__x")
+                return ("{ let mut __res = %s;\n" % init + self.stmt_text("loop", str(k), "before") + head + self.loop_spec(k)
+                        + "{ %s if %s(%s) { __res = %s; break; } }" % (bind, hit, body, "false" if m == "all" else "true")
+                        + self.stmt_text("loop", str(k), "after") + " __res }")
+        # R13b: V.extend(RANGE.map(f))  ->  for x in RANGE { V.push(f(x)); }   (Extend for Vec over an iterator = push each)
+        if m == "extend" and len(args) == 1 and args[0]["k"] == "MethodCall" and args[0]["method"] == "map":
+            inner = args[0]
+            base = self.find(inner, inner["receiver"])
+            fargs = [self.find(inner, a) for a in inner["args"]]
+            if RANGE_FOR.match(self.t(base["s"], base["e"]).strip()) and len(fargs) == 1 and fargs[0]["k"] in ("Path", "Closure"):
+                f = fargs[0]
+                if f["k"] == "Closure":
+                    self.closure_ok_to_inline(f)
+                    pat, val = f["inputs"][0]["text"], self.render(self.find(f, f["body"]))
+                else:
+                    pat, val = "__x", "%s(__x)" % self.render(f)
+                k = self.nloops + self.synth_loops
+                self.synth_loops += 1
+                self.log.append("R13b V.extend(range.map(f)) -> push loop (synthesized loop #%d)" % k)
+                head = ("for %s in %s" % (pat, self.render(base))) if self.plain else ("for %s in __r%d: %s" % (pat, k, self.render(base)))
+                return ("{" + self.stmt_text("loop", str(k), "before") + head + self.loop_spec(k) + "{ %s.push(%s); }" % (self.render(recv), val)
+                        + self.stmt_text("loop", str(k), "after") + "}")
         # R13: E.map(closure|Ctor).collect()
         if m == "collect" and recv["k"] == "MethodCall" and recv["method"] == "map":
             r = self.try_r13(n, recv)
@@ -1010,8 +1057,9 @@ def synth_fn(key, rec, impls, ctx, table, by_mod):
     by_mod.setdefault(mod, []).append((sub, text, False))
 
 
-def generate(outdir, stub=None, probe=False):
+def generate(outdir, stub=None, probe=False, nohints=None):
     stub = stub or {}
+    nohints = nohints or set()
     os.makedirs(outdir, exist_ok=True)
     srcs = run_pqx()
     fns, structs, impls = collect(srcs)
@@ -1043,6 +1091,24 @@ def generate(outdir, stub=None, probe=False):
             # built-in obligations only (C04); reported in map.json / evidence as not under contract
             rec = FnRec(fn.key, "(no overlay record)")
             rec.attrs["mode"] = "plain"
+            # type invariants declared in the overlay apply to functions it does not know: required on entry, and for
+            # `&mut self` re-established on exit
+            if fn.impl is not None:
+                tkey = fn.key.rsplit("::", 1)[0].replace("&mut ", "").replace("&", "")
+                recvs = [i for i in fn.node["inputs"] if i["receiver"]]
+                for mk, lines in mods_extra.items():
+                    if not mk.startswith("__typeinv__"):
+                        continue
+                    tname, tags = mk[len("__typeinv__"):].split("|")
+                    if tname != tkey or not recvs:
+                        continue
+                    txt = "\n".join(lines).strip()
+                    tl = [t.strip() for t in tags.split(",") if t.strip()]
+                    rcv = recvs[0]
+                    is_mut_ref = rcv["ref"] and rcv["mut"]
+                    rec.sections.append(Section("requires", [], tl, fn.key + "#typeinv.pre", txt.replace("SELF", "old(self)" if is_mut_ref else "self") + "\n", "typeinv"))
+                    if is_mut_ref:
+                        rec.sections.append(Section("ensures", [], tl, fn.key + "#typeinv.post", txt.replace("SELF", "final(self)") + "\n", "typeinv"))
         rec.used = True
         mode = rec.attrs.get("mode", "contract")
         a, b = fn.node["span"]
@@ -1060,9 +1126,28 @@ def generate(outdir, stub=None, probe=False):
             if fn.key in stub:
                 raise Undecided("does not compile in the verifier's dialect: " + stub[fn.key])
             text = r.render_fn()
-            for s in rec.sections:
-                if not s.used:
-                    die("overlay: anchor not found in %s: @%s %s (%s)" % (fn.key, s.anchor, " ".join(s.args), s.origin))
+            # a proof hint / loop clause whose structural anchor no longer exists in the function is dropped (and
+            # recorded): the function is still verified against its contract, and whatever then no longer goes through
+            # is reported as a failed obligation
+            lost = [s for s in rec.sections if not s.used]
+            if lost:
+                entry["lost_anchors"] = ["@%s %s (%s)" % (s.anchor, " ".join(s.args), s.origin) for s in lost]
+            if lost and fn.key in nohints:
+                # the remaining hints do not compile without the lost ones (ghost variables): keep only the contract
+                # proper and the loop clauses
+                entry["lost_anchors"].append("(all other proof hints of this function dropped as well)")
+                for k in [c for c, v in ctx.clauses.items() if v["fn"] == fn.key]:
+                    del ctx.clauses[k]
+                keep = FnRec(rec.key, rec.origin)
+                keep.attrs, keep.rw = rec.attrs, rec.rw
+                keep.sections = [x for x in rec.sections if x.anchor in ("requires", "ensures", "decreases", "attr")
+                                 or (x.anchor == "loop" and len(x.args) > 1 and x.args[1] in ("invariant", "invariant_except_break", "ensures", "decreases", "iter_name", "attr") and x.used)]
+                for x in keep.sections:
+                    x.used = False
+                rec_for_render = keep
+                r = Renderer(fn, keep, ctx)
+                text = r.render_fn()
+                rec = keep
         except Undecided as e:
             # the function cannot be brought into the verifier's input as it stands: keep its contract for the
             # callers (assumed), do not verify its body, and make every property it carries UNDECIDED
@@ -1155,6 +1240,8 @@ def generate(outdir, stub=None, probe=False):
     for name, child in tree.items():
         emit([name], child, 0)
     for mod in mods_extra:
+        if mod.startswith("__typeinv__"):
+            continue
         if mod not in allmods and mod != "root":
             die("overlay: module text for unknown module " + mod)
     for line in mods_extra.get("root", []):
